@@ -343,6 +343,12 @@ pub fn r_nested_closure(s: &str) -> String {
         s.to_string()
     }
 }
+pub fn r_replace(s: &str) -> String {
+    let a = s.replace(['a', 'b'], " ");
+    let b = s.replace('x', "yy");
+    let c = s.replacen(|c: char| c.is_ascii_digit(), "#", 1);
+    format!("{}|{}|{}|{}", a, b, c, s.replace("ab", "-"))
+}
 pub fn r_clone_from(s: &str) -> String {
     let mut a = String::from("old");
     let b = s.to_string();
@@ -370,6 +376,7 @@ mod probe_native {
             let s: &str = s;
             println!("PROBE\tp_find_digit\t{}\t{:?}", i, p_find_digit(s));
             println!("PROBE\tr_clone_from\t{}\t{:?}", i, r_clone_from(s));
+            println!("PROBE\tr_replace\t{}\t{:?}", i, r_replace(s));
             println!("PROBE\tr_nested_closure\t{}\t{:?}", i, r_nested_closure(s));
             println!("PROBE\tr_try_from\t{}\t{:?}", i, r_try_from(s));
             println!("PROBE\tr_u8_class\t{}\t{:?}", i, r_u8_class(s));
